@@ -38,7 +38,11 @@ CallEv ==
         THEN \* the library refused the configuration: outside the domain (errors are not mutations)
              /\ note' = IF HasCfg(e) /\ Sup(e) /\ note = "" THEN "drift_supported_but_raised_" \o e.f ELSE note
              /\ phase' = "stopped" /\ UNCHANGED <<objs, verdict, where, lastf, lastargs, lastres>>
-        ELSE LET c == IF e.f \in AllFuncs THEN CallClause(e.f, e.args, P, e.objs, e.res) ELSE "unknown_function" IN
+        ELSE LET c == IF e.f \notin AllFuncs THEN "unknown_function"
+                      \* a non-raster array argument (kernel, transform) was edited: "no function changes the values of the
+                      \* arguments passed to it"
+                      ELSE IF e.argchg THEN "argument_array_changed"
+                      ELSE CallClause(e.f, e.args, P, e.objs, e.res) IN
              /\ verdict' = IF verdict = "ok" THEN c ELSE verdict
              /\ where' = IF verdict = "ok" /\ c # "ok" THEN e.f \o "@" \o ToString(l) ELSE where
              /\ note' = IF HasCfg(e) /\ ~Sup(e) /\ note = "" THEN "drift_unsupported_but_ran_" \o e.f ELSE note
